@@ -51,6 +51,10 @@ impl Abort {
             Abort::Panic { loc, msg } => format!("panic@{} {}", strip_repo(loc), first_line(msg)),
         }
     }
+    /// The documented-unimplemented RTI (`todo!()`): outside every claim.
+    pub fn is_rti_todo(&self) -> bool {
+        matches!(self, Abort::Panic { msg, .. } if msg.contains("RTI") && msg.contains("not yet implemented"))
+    }
     /// Location with the repository prefix removed and line number kept.
     pub fn panic_site(&self) -> String {
         match self {
